@@ -562,3 +562,28 @@ theorem C03_source_sched_aging :
     sched_pending_weighted_ifs = ["!meta.StartedAt.IsZero()", "eff == classMedium || eff == classLarge"] := by decide
 
 end TV.Sched
+
+namespace TV.Mailbox
+
+/-- **C03_mailbox_no_lost_delivery.** One waiter and one delivery for an id, in either order: the waiter receives the message
+(`FileDone`, `FileResumeInfo` and accepted data streams reach the goroutine that waits for them whichever comes first) -/
+theorem C03_mailbox_no_lost_delivery (m : Nat) :
+    (run init [.wait, .deliver m]).got = some m ∧ (run init [.deliver m, .wait]).got = some m := by
+  constructor <;> rfl
+
+open TV.Gen.Shapes in
+set_option maxRecDepth 16384 in
+/-- look-up-or-register and hand-over-or-leave are single critical sections in all three registries -/
+theorem C03_source_mailboxes :
+    mailbox_done_wait = ["r.mu.Lock()", "if msg, ok := r.pending[id]; ok { delete(r.pending, id) r.mu.Unlock() return msg, nil }",
+      "ch := make(chan FileDone, 1)", "r.waiters[id] = ch", "r.mu.Unlock()"] ∧
+    mailbox_done_deliver = ["r.mu.Lock()", "defer r.mu.Unlock()",
+      "if ch, ok := r.waiters[msg.StreamID]; ok { delete(r.waiters, msg.StreamID) ch <- msg close(ch) return }", "r.pending[msg.StreamID] = msg"] ∧
+    mailbox_resume_wait = ["r.mu.Lock()", "if msg, ok := r.pending[id]; ok { delete(r.pending, id) r.mu.Unlock() return msg, nil }",
+      "ch := make(chan FileResumeInfo, 1)", "r.waiters[id] = ch", "r.mu.Unlock()"] ∧
+    mailbox_resume_deliver = ["r.mu.Lock()", "defer r.mu.Unlock()",
+      "if ch, ok := r.waiters[msg.StreamID]; ok { delete(r.waiters, msg.StreamID) ch <- msg close(ch) return }", "r.pending[msg.StreamID] = msg"] ∧
+    mailbox_stream_wait = ["r.mu.Lock()", "if s, ok := r.streams[id]; ok { delete(r.streams, id) r.mu.Unlock() return s, nil }",
+      "ch := make(chan Stream, 1)", "r.waiters[id] = append(r.waiters[id], ch)", "r.mu.Unlock()"] := by decide
+
+end TV.Mailbox
